@@ -472,11 +472,19 @@ func parseHashRuleSliceInfos(locations []int, slices []string) ([]int, map[int]i
 		return nil, nil, errors.ErrLocationsCount
 	}
 	for i := 0; i < len(locations); i++ {
+		// a negative count would move sumTables backwards and list a sub table twice
+		if locations[i] < 0 {
+			return nil, nil, errors.ErrLocationsNegative
+		}
 		for j := 0; j < locations[i]; j++ {
 			subTableIndexs = append(subTableIndexs, j+sumTables)
 			tableToSlice[j+sumTables] = i
 		}
 		sumTables += locations[i]
+	}
+	// a rule without any sub table cannot route a key (hash and mod divide by the table count)
+	if sumTables == 0 {
+		return nil, nil, errors.ErrLocationsEmpty
 	}
 	return subTableIndexs, tableToSlice, nil
 }
